@@ -206,6 +206,12 @@ def r5(ctx):
     vals = [t for _, _, t in ret_values_in_region(fa, ktr)]
     ctx.check(P, rule, "key pair together with open is rejected", okk and vals and all(is_agg(t, "Err") and "BadArgument" in term_str(t) for t in vals),
               "open && key_pair.is_some() returns Err(BadArgument) before touching storage", "open with a key pair is not rejected before the oplog is opened (%s)" % [term_str(v)[:60] for v in vals], [loc(fa, kb)])
+    # the guard must see the caller's value: nothing may have emptied or replaced options.key_pair
+    # (take(), replace(), an assignment) on a way to the test
+    early = [(bb, si) for bb, si in mut_borrow_sites(fa, "options.key_pair") + [(bb, si) for bb, si, _ in assign_sites_prefix(fa, "options.key_pair")] if bb == kb or fa.can_reach(bb, kb)]
+    ctx.check(P, rule, "the guard tests the key pair as the caller passed it", not early, "no take / replace / assignment of options.key_pair before the test",
+              "options.key_pair is mutably borrowed or assigned before `open && key_pair.is_some()` is tested: the guard may see an emptied option and never fire", [loc(fa, bb, si) for bb, si in early],
+              key="C12|C12.R5|Hypercore::new|key pair taken before the guard")
     for s in oo:
         k = fa.arg_origin(s, 0)
         rts = roots(k)
